@@ -13,6 +13,11 @@ type VerifControlBuf struct {
 	mu   sync.Mutex
 	ids  map[any]int
 	orph []int
+
+	// OnOrphan, if set, is called from inside every clientHeaders.onOrphaned callback (i.e. from
+	// inside finish()) after the orphaning was recorded: the harness uses it to hold finish() in
+	// the middle of its orphan sweep while other goroutines operate on the buffer.
+	OnOrphan func(id int)
 }
 
 // VerifNewControlBuf makes a controlBuffer with the given throttle limit
@@ -36,7 +41,11 @@ func (v *VerifControlBuf) Put(kind byte, id int) error {
 		it = &clientHeaders{onOrphaned: func(error) {
 			v.mu.Lock()
 			v.orph = append(v.orph, id)
+			hook := v.OnOrphan
 			v.mu.Unlock()
+			if hook != nil {
+				hook(id)
+			}
 		}}
 	default:
 		panic("bad kind")
